@@ -292,7 +292,13 @@ where
         Ok(sol) => {
             let (t, y, t_events, y_events, dense_raw) = default_solout.into_payload();
             let continuous_sol = if options.dense_output {
-                Some(ContinuousOutput::from_segments(options.method, n_states, dense_raw))
+                if dense_raw.is_empty() {
+                    // No step was accepted (budget exhausted or failure at the very first step):
+                    // the covered range is the single stored point x0, as for a zero-length interval.
+                    Some(ContinuousOutput::constant(options.method, x0, y0))
+                } else {
+                    Some(ContinuousOutput::from_segments(options.method, n_states, dense_raw))
+                }
             } else {
                 None
             };
